@@ -39,3 +39,81 @@ package statsd
 //@ func mapToThresholds
 //@   ensures  base(result) == 0 || fresh(base(result))
 //@   loop 1 invariant base(lb) == 0 || fresh(base(lb))
+
+// ---- expiry (C09) -------------------------------------------------------------------------------------
+//@ pred isExpiredSpec(i time.Duration, now gostatsd.Nanotime, ts gostatsd.Nanotime) := i != 0 && wrap64(now - ts) > i
+
+//@ func isExpired
+//@   pure
+//@   ensures result == isExpiredSpec(interval, now, ts)
+
+// the clock of the aggregator does not touch the aggregator's state
+//@ functype clockFn() sig func() time.Time
+//@   requires true
+
+// Reset, counters: an expired series disappears, any other is kept with count and rate zero and
+// its timestamp, source and tags; nothing else changes. (The outer key goes away only together
+// with its last child.)
+//@ func (*MetricAggregator).Reset$1
+//@   floats real
+//@   requires a != nil && a.metricMap != nil && wfdCounters(a.metricMap.Counters) && hasC(a.metricMap, key, tagsKey)
+//@   ensures  wfdCounters(a.metricMap.Counters) && a.metricMap.Counters == old(a.metricMap.Counters)
+//@   ensures  [expiry] isExpiredSpec(a.expiryIntervalCounter, nowNano, counter.Timestamp) ==> !hasC(a.metricMap, key, tagsKey)
+//@   ensures  [expiry] !isExpiredSpec(a.expiryIntervalCounter, nowNano, counter.Timestamp) ==> hasC(a.metricMap, key, tagsKey) && a.metricMap.Counters[key][tagsKey].Value == 0 && a.metricMap.Counters[key][tagsKey].PerSecond == 0.0 && a.metricMap.Counters[key][tagsKey].Timestamp == counter.Timestamp && a.metricMap.Counters[key][tagsKey].Source == counter.Source && a.metricMap.Counters[key][tagsKey].Tags == counter.Tags
+//@   ensures  forall n string, t string :: (n != key || t != tagsKey) ==> hasC(a.metricMap, n, t) == old(hasC(a.metricMap, n, t)) && (hasC(a.metricMap, n, t) ==> a.metricMap.Counters[n][t] == old(a.metricMap.Counters[n][t]))
+//@   ensures  (key in a.metricMap.Counters) ==> a.metricMap.Counters[key] == old(a.metricMap.Counters[key])
+//@   ensures  !(key in a.metricMap.Counters) ==> forall t string :: !(t in old(a.metricMap.Counters[key]))
+//@   modifies a.metricMap.Counters[*], a.metricMap.Counters[key][*]
+//@   iter invariant a != nil && a.metricMap != nil && wfdCounters(a.metricMap.Counters) && iter == a.metricMap.Counters
+//@   iter inner invariant (iterKey in iter && iter[iterKey] == iterInner) || (forall t string :: !(t in iterInner))
+
+// Reset, gauges: expired series disappear, the others are untouched.
+//@ func (*MetricAggregator).Reset$3
+//@   floats real
+//@   requires a != nil && a.metricMap != nil && wfdGauges(a.metricMap.Gauges) && hasG(a.metricMap, key, tagsKey)
+//@   ensures  wfdGauges(a.metricMap.Gauges) && a.metricMap.Gauges == old(a.metricMap.Gauges)
+//@   ensures  [expiry] isExpiredSpec(a.expiryIntervalGauge, nowNano, gauge.Timestamp) ==> !hasG(a.metricMap, key, tagsKey)
+//@   ensures  [expiry] !isExpiredSpec(a.expiryIntervalGauge, nowNano, gauge.Timestamp) ==> hasG(a.metricMap, key, tagsKey) && a.metricMap.Gauges[key][tagsKey] == old(a.metricMap.Gauges[key][tagsKey])
+//@   ensures  forall n string, t string :: (n != key || t != tagsKey) ==> hasG(a.metricMap, n, t) == old(hasG(a.metricMap, n, t)) && (hasG(a.metricMap, n, t) ==> a.metricMap.Gauges[n][t] == old(a.metricMap.Gauges[n][t]))
+//@   ensures  (key in a.metricMap.Gauges) ==> a.metricMap.Gauges[key] == old(a.metricMap.Gauges[key])
+//@   ensures  !(key in a.metricMap.Gauges) ==> forall t string :: !(t in old(a.metricMap.Gauges[key]))
+//@   modifies a.metricMap.Gauges[*], a.metricMap.Gauges[key][*]
+//@   iter invariant a != nil && a.metricMap != nil && wfdGauges(a.metricMap.Gauges) && iter == a.metricMap.Gauges
+//@   iter inner invariant (iterKey in iter && iter[iterKey] == iterInner) || (forall t string :: !(t in iterInner))
+
+// Reset, timers: a surviving series keeps timestamp, source and tags, has no values, count 0 and no
+// percentiles (histogram timers: a histogram with every bucket at 0).
+//@ func (*MetricAggregator).Reset$2
+//@   floats real
+//@   requires a != nil && a.metricMap != nil && wfdTimers(a.metricMap.Timers) && hasT(a.metricMap, key, tagsKey)
+//@   ensures  wfdTimers(a.metricMap.Timers) && a.metricMap.Timers == old(a.metricMap.Timers)
+//@   ensures  [expiry] isExpiredSpec(a.expiryIntervalTimer, nowNano, timer.Timestamp) ==> !hasT(a.metricMap, key, tagsKey)
+//@   ensures  [expiry] !isExpiredSpec(a.expiryIntervalTimer, nowNano, timer.Timestamp) ==> hasT(a.metricMap, key, tagsKey) && len(a.metricMap.Timers[key][tagsKey].Values) == 0 && a.metricMap.Timers[key][tagsKey].Count == 0 && a.metricMap.Timers[key][tagsKey].SampledCount == 0.0 && len(a.metricMap.Timers[key][tagsKey].Percentiles) == 0
+//@   ensures  [expiry] !isExpiredSpec(a.expiryIntervalTimer, nowNano, timer.Timestamp) ==> a.metricMap.Timers[key][tagsKey].Timestamp == timer.Timestamp && a.metricMap.Timers[key][tagsKey].Source == timer.Source && a.metricMap.Timers[key][tagsKey].Tags == timer.Tags
+//@   ensures  forall n string, t string :: (n != key || t != tagsKey) ==> hasT(a.metricMap, n, t) == old(hasT(a.metricMap, n, t)) && (hasT(a.metricMap, n, t) ==> a.metricMap.Timers[n][t] == old(a.metricMap.Timers[n][t]))
+//@   ensures  (key in a.metricMap.Timers) ==> a.metricMap.Timers[key] == old(a.metricMap.Timers[key])
+//@   ensures  !(key in a.metricMap.Timers) ==> forall t string :: !(t in old(a.metricMap.Timers[key]))
+//@   modifies a.metricMap.Timers[*], a.metricMap.Timers[key][*]
+//@   iter invariant a != nil && a.metricMap != nil && wfdTimers(a.metricMap.Timers) && iter == a.metricMap.Timers
+//@   iter inner invariant (iterKey in iter && iter[iterKey] == iterInner) || (forall t string :: !(t in iterInner))
+
+// Reset, sets: a surviving series keeps timestamp, source and tags and has an empty, allocated member map.
+//@ func (*MetricAggregator).Reset$4
+//@   requires a != nil && a.metricMap != nil && wfdSets(a.metricMap.Sets) && hasS(a.metricMap, key, tagsKey)
+//@   ensures  wfdSets(a.metricMap.Sets) && a.metricMap.Sets == old(a.metricMap.Sets)
+//@   ensures  [expiry] isExpiredSpec(a.expiryIntervalSet, nowNano, set.Timestamp) ==> !hasS(a.metricMap, key, tagsKey)
+//@   ensures  [expiry] !isExpiredSpec(a.expiryIntervalSet, nowNano, set.Timestamp) ==> hasS(a.metricMap, key, tagsKey) && a.metricMap.Sets[key][tagsKey].Values != nil && (forall x string :: !(x in a.metricMap.Sets[key][tagsKey].Values))
+//@   ensures  [expiry] !isExpiredSpec(a.expiryIntervalSet, nowNano, set.Timestamp) ==> a.metricMap.Sets[key][tagsKey].Timestamp == set.Timestamp && a.metricMap.Sets[key][tagsKey].Source == set.Source && a.metricMap.Sets[key][tagsKey].Tags == set.Tags
+//@   ensures  forall n string, t string :: (n != key || t != tagsKey) ==> hasS(a.metricMap, n, t) == old(hasS(a.metricMap, n, t)) && (hasS(a.metricMap, n, t) ==> a.metricMap.Sets[n][t] == old(a.metricMap.Sets[n][t]))
+//@   ensures  (key in a.metricMap.Sets) ==> a.metricMap.Sets[key] == old(a.metricMap.Sets[key])
+//@   ensures  !(key in a.metricMap.Sets) ==> forall t string :: !(t in old(a.metricMap.Sets[key]))
+//@   modifies a.metricMap.Sets[*], a.metricMap.Sets[key][*]
+//@   iter invariant a != nil && a.metricMap != nil && wfdSets(a.metricMap.Sets) && iter == a.metricMap.Sets
+//@   iter inner invariant (iterKey in iter && iter[iterKey] == iterInner) || (forall t string :: !(t in iterInner))
+
+//@ func (*MetricAggregator).Reset
+//@   floats real
+//@   requires a != nil && a.now != nil && a.metricMap != nil
+//@   requires wfdCounters(a.metricMap.Counters) && wfdGauges(a.metricMap.Gauges) && wfdTimers(a.metricMap.Timers) && wfdSets(a.metricMap.Sets)
+//@   ensures  wfdCounters(a.metricMap.Counters) && wfdGauges(a.metricMap.Gauges) && wfdTimers(a.metricMap.Timers) && wfdSets(a.metricMap.Sets)
+//@   modifies everything
